@@ -201,6 +201,7 @@ Record c02_case := {
   c2_guesses : option (list Z);       (* Some guesses: attack; None: reverse *)
   c2_model : lmodel;
   c2_prec : prec;
+  c2_step : option nat;               (* convergence_step of the attack (None for reverse analyses) *)
   c2_runs : list c02_run;
   c2_obs_updates : list (list zrow2); (* every update() call, in order: its (traces row, flattened data row) pairs *)
   c2_obs_processed : nat;             (* processed_traces at the end *)
@@ -229,14 +230,15 @@ Definition c02_container (r : c02_run) : container (list Z) (list Z) :=
 Definition c02_rows (c : c02_case) (r : c02_run) : list zrow2 :=
   rows_of (list Z) (list Z) (list Z) (list Z) (fun m => m) (data_row (c2_guesses c) (c2_model c)) (c02_container r).
 Definition c02_expected_updates (c : c02_case) : list (list zrow2) :=
-  flat_map (fun r => batches_of (c02_rows c r) (run_bs_nat r)) (c2_runs c).
+  flat_map (fun r => batches_of (c02_rows c r) (eff_bs (c2_step c) (run_bs_nat r))) (c2_runs c).
 
 (* impl-model side: the free accumulator run through the model of run() *)
 Definition c02_model_state (c : c02_case) :=
-  free_run (data_row (c2_guesses c) (c2_model c)) None free_fresh (map c02_container (c2_runs c)).
+  free_run (data_row (c2_guesses c) (c2_model c)) (c2_step c) free_fresh (map c02_container (c2_runs c)).
 
 Definition c02_check (c : c02_case) : bool :=
-  (* the frames are meaningful, the batch size rule gives what the container says, and it is >= 1 *)
+  match c2_step c with Some k => 1 <=? k | None => true end
+  && (* the frames are meaningful, the batch size rule gives what the container says, and it is >= 1 *)
   forallb (fun r => match r2_rows r with [] => false | row :: _ => frame_ok (r2_frame r) (length (fst row)) end
                     && option_eqb Z.eqb (run_bs r) (r2_obs_bs r)
                     && match run_bs r with Some b => (1 <=? b)%Z | None => false end) (c2_runs c)
@@ -320,12 +322,13 @@ Definition c08_check (c : c08_case) : bool :=
   && list_eqb pairnat_eqb (c8_obs_computes c) (computes st)
   && natlist_eqb (c8_obs_ncols c) (c08_ncols_after (c8_step c) unit_fresh (c8_runs c))
   && match c8_obs_marks c with Some m => natlist_eqb m (marks st) | None => true end
-  (* every column is the score of a fresh attack on the prefix *)
+  (* every column is the score of a fresh attack on the prefix: EXACTLY (same code on the same exactly-summed accumulators;
+     a column stored in a narrower dtype than the scores is not the scores) *)
   && Nat.eqb (length (c8_obs_conv c)) (length (cols st))
-  && forallb2 (fvals_same tol) (c8_obs_conv c) (c8_prefix_scores c)
+  && forallb2 (fvals_same 0) (c8_obs_conv c) (c8_prefix_scores c)
   && forallb (fun col => Nat.eqb (length col) (c8_width c)) (c8_obs_conv c)
   (* the last column is the final scores *)
-  && fvals_same tol (last (c8_obs_conv c) []) (c8_obs_scores c)
+  && fvals_same 0 (last (c8_obs_conv c) []) (c8_obs_scores c)
   && Nat.eqb (last (c08_points c) 0) (processed st)
   (* asking for convergence traces changed neither results nor scores *)
   && fvals_same tol (c8_obs_scores c) (c8_plain_scores c)
